@@ -14,13 +14,13 @@ CONSTANTS
   Dev_RsrcRecursion = FALSE
   Dev_FirstDepth = FALSE
   Dev_KidsDepth = FALSE
-  FirstWalkIterative = FALSE
+  FirstWalkIterative = TRUE
   StackFrames = 9
   OutlineDepthLimit = 5
   NameTreeDepthLimit = 5
   ChainLens = {1, 2, 3, 4, 5, 6, 7, 8, 9, 10, 12, 16, 24}
   Emit = FALSE
-  Scen = {"chain", "deref", "cont", "rsrc", "links", "dest", "kids", "names", "img", "toc", "pages"}
+  Scen = {"chain", "links", "dest"}
 INVARIANTS ChainOK StackOK PcOK Bounded RsrcDepth TotalInv
 PROPERTIES Terminates
 CHECK_DEADLOCK FALSE
